@@ -9,17 +9,19 @@ SPEC = dict(
                "directory that was removed under the shell: no crash; rejected input is not searched; printed count <= limit in force and equal to the engine's count; "
                "JSON result block is a well-formed array whose items are the engine's results in rank order (tie-tolerant, stable reference); no ESC "
                "byte when colour is off; history grew by exactly one entry (or none for an immediate repeat) whose newest entry is (validated query, "
-               "printed count). A second engine runs every sub-command (help, history, pipeline, wizard with closed and scripted stdin, alias, setup, "
+               "printed count). A fifth of the homes start with a full history file (100 entries, in two of three cases with timestamps from a clock "
+               "that ran ahead or out of order); a few runs print an answer of 200 KB into a pipe whose reader closes it a few KiB into the result block - "
+               "the history must hold the entry all the same. A second engine runs every sub-command (help, history, pipeline, wizard with closed and scripted stdin, alias, setup, "
                "save, save-pipeline) with generated arguments and requires a normal exit (0 or usage error 1), no panic, no signal, no hang.",
     level_note="The replica of the search command's engine call (options, recovery search truncated to the limit) is an assumption of the rank-order clause; "
                "the limit, JSON, colour, crash and history clauses do not depend on it.",
     engines=[dict(name="cli-search", shards=T(16, 16), timeout=T(1500, 7200), needs_wtf=True),
              dict(name="cli-commands", shards=T(16, 16), timeout=T(1500, 7200), needs_wtf=True)],
     rule="case = one invocation of the built binary; non-trivial = a search that printed at least one result, or any sub-command invocation; distinct by argument vector (and stdin).",
-    floors=T({"runs-in-a-removed-working-directory": 15, "no-color-false-spelt-out": 25, "accepted": 250, "rejected": 30, "format-json": 90, "format-list": 90, "format-table": 30, "no-color-runs": 120, "history-checked": 240,
+    floors=T({"broken-pipe-runs-with-output-over-64KiB": 20, "homes-with-a-full-history": 20, "homes-with-a-full-history-odd-timestamps": 10, "runs-in-a-removed-working-directory": 15, "no-color-false-spelt-out": 25, "accepted": 250, "rejected": 30, "format-json": 90, "format-list": 90, "format-table": 30, "no-color-runs": 120, "history-checked": 240,
               "rank-order-compared": 60, "recovery-answers": 8, "db-kind-missing-path": 5, "db-kind-malformed": 5, "db-kind-shipped": 5, "homes-with-xdg-config-home": 24, "cmd-wizard": 50, "cmd-history": 50, "cmd-alias": 50, "cmd-save": 50, "cmd-save-pipeline": 30,
               "cmd-pipeline": 30, "cmd-setup": 30, "distinct_nontrivial": 500},
-             {"runs-in-a-removed-working-directory": 300, "no-color-false-spelt-out": 500, "accepted": 1000, "rejected": 100, "format-json": 300, "format-list": 300, "format-table": 100, "no-color-runs": 400, "history-checked": 800,
+             {"broken-pipe-runs-with-output-over-64KiB": 120, "homes-with-a-full-history": 300, "homes-with-a-full-history-odd-timestamps": 150, "runs-in-a-removed-working-directory": 300, "no-color-false-spelt-out": 500, "accepted": 1000, "rejected": 100, "format-json": 300, "format-list": 300, "format-table": 100, "no-color-runs": 400, "history-checked": 800,
               "rank-order-compared": 200, "recovery-answers": 30, "db-kind-missing-path": 20, "db-kind-malformed": 20, "db-kind-shipped": 20, "homes-with-xdg-config-home": 80, "cmd-wizard": 500, "cmd-history": 500, "cmd-alias": 500, "cmd-save": 500, "cmd-save-pipeline": 300,
               "cmd-pipeline": 300, "cmd-setup": 300, "distinct_nontrivial": 5000}),
     assumptions=["exit status 1 with a cobra usage error is a normal end of a command given wrong arguments"],
